@@ -14,6 +14,8 @@ VIOLATION is a false alarm of the machinery and is listed.
   T6 drop else after a body that always leaves;  T7 the inverse (what follows becomes the else)
   T8 first call argument extracted into a local:  f(g(x))  ->  _a0 = g(x); f(_a0)
   T9 two adjacent independent call-free assignments swapped;  T10 `else: pass` added to every if without else
+  T11-T17 see hsverify/selftest.py;  T18 %-format -> f-string;  T19 isinstance tuple -> disjunction;  T20 ternary -> if;
+  T21 keyword -> positional arguments of same-module calls
 """
 import ast
 import copy
@@ -44,7 +46,7 @@ def run_one(args):
 def main(argv):
     props = check.PROPS
     jobs = 16
-    kinds = ['T1', 'T2', 'T3', 'T4', 'T5', 'T6', 'T7', 'T8', 'T9', 'T10', 'T11', 'T12', 'T13', 'T14', 'T15', 'T16', 'T17']
+    kinds = ['T1', 'T2', 'T3', 'T4', 'T5', 'T6', 'T7', 'T8', 'T9', 'T10', 'T11', 'T12', 'T13', 'T14', 'T15', 'T16', 'T17', 'T18', 'T19', 'T20', 'T21']
     if '--props' in argv:
         props = argv[argv.index('--props') + 1].split(',')
     if '--jobs' in argv:
